@@ -56,4 +56,7 @@ def C02pairs (fm : Fm) (tr : Nat × List (Nat × Nat × Expr × Expr)) : Bool :=
   | some k => tr.2.all (checkConvertPair k fm)
   | none => false
 
+/-- Same formula in float, double and long double. -/
+def SameFormula (t : Entry × Entry × Entry) : Bool := sameFormula t
+
 end PhQVerif.Chk
